@@ -273,7 +273,6 @@ public:
         padded_page* invalid_page = reinterpret_cast<padded_page*>(std::uintptr_t(1));
         {
             spin_mutex::scoped_lock lock( page_mutex );
-            tail_counter.store(k + queue_rep_type::n_queue + 1, std::memory_order_relaxed);
             padded_page* q = tail_page.load(std::memory_order_relaxed);
             if (is_valid_page(q)) {
                 q->next = invalid_page;
@@ -281,6 +280,9 @@ public:
                 head_page.store(invalid_page, std::memory_order_relaxed);
             }
             tail_page.store(invalid_page, std::memory_order_relaxed);
+            // Publish the invalidated tail counter last: a pop waiting for this ticket reads the pages
+            // without the mutex as soon as it sees the counter change.
+            tail_counter.store(k + queue_rep_type::n_queue + 1, std::memory_order_release);
         }
     }
 
